@@ -190,6 +190,29 @@ pub fn run_scaled(ctx: &mut Ctx, n_model: usize, n_big: usize, exhaustive_subset
         items.push(Item { case, originals, given: go });
     }
 
+    // (d) few shards of 5 .. 18 blocks each, implementation only: the block loops of the kernels with every
+    //     remainder of the block count, on every engine
+    for n in 0..n_big.max(20) {
+        let max_work = *ctx.rng.pick(&[8usize, 16, 32]);
+        let cfg = gen_cfg(&mut ctx.rng, max_work, &kinds, &ENGINES, &MULTI_BLOCK_SIZES);
+        let originals = gen_originals(&mut ctx.rng, cfg.k, cfg.sb);
+        let Some(recovery) = encode_impl(&cfg, &originals) else {
+            let c = Case::new("wide-encode");
+            ctx.oracle_fail(format!("encode failed for supported {}", cfg.tag()), &c, None);
+            continue;
+        };
+        let (go, gr, pat) = gen_received(&mut ctx.rng, cfg.k, cfg.r);
+        let order: Vec<(bool, usize)> =
+            go.iter().map(|i| (true, *i)).chain(gr.iter().map(|i| (false, *i))).collect();
+        ctx.count("loss_pattern", pat);
+        ctx.count("kind", &cfg.kind);
+        ctx.count("engine", &cfg.engine);
+        ctx.count("shard_bytes", &cfg.sb.to_string());
+        let mut case = roundtrip_case(&format!("wide-{}", n), &cfg, &cfg, &originals, &recovery, &order);
+        case.with_model = false;
+        items.push(Item { case, originals, given: go });
+    }
+
     let cases: Vec<Case> = items.iter().map(|i| i.case.clone()).collect();
     let runs = ctx.run_cases(&cases);
     for (it, run) in items.iter().zip(runs.iter()) {
